@@ -1,8 +1,37 @@
 """C23 - cryptographic building blocks.  Specs: specs/crypto/{Rc4,Crypto,MCCrypto,CryptoTrace}.tla"""
+import json
 import os
 import vlib
 
 LEVEL = "model_checking"
+
+
+def boundary_2b(seed, want):
+    """(password, salt, u) triples on which Algorithm 2.B stops exactly at / just before / just after its boundary."""
+    import subprocess
+    code = r"""
+import hashlib, json, sys
+from cryptography.hazmat.primitives.ciphers import Cipher, algorithms, modes
+def run(pw, salt, u):
+    K = hashlib.sha256(pw + salt + u).digest(); r = 0
+    while True:
+        c = Cipher(algorithms.AES(K[:16]), modes.CBC(K[16:32])).encryptor(); E = c.update((pw + K + u) * 64) + c.finalize()
+        K = [hashlib.sha256, hashlib.sha384, hashlib.sha512][sum(E[:16]) % 3](E).digest(); r += 1
+        if r >= 64 and E[-1] <= r - 32: return r, E[-1]
+seed, want = int(sys.argv[1]), int(sys.argv[2]); out = {"on": [], "beside": []}
+i = 0
+while (len(out["on"]) < want or len(out["beside"]) < 1) and i < 4000:
+    pw = ("password%d" % (seed * 4000 + i)).encode(); salt = bytes([(seed + i + k) % 256 for k in range(8)]); u = bytes(range(48)) if i % 2 else b""
+    r, last = run(pw, salt, u)
+    kind = "on" if last == r - 32 else ("beside" if last == r - 33 else None)
+    if kind and len(out[kind]) < want: out[kind].append({"alg": "h2b", "pw": list(pw), "salt": list(salt), "u": list(u), "rounds": r, "last": last})
+    i += 1
+print(json.dumps(out["on"] + out["beside"][:1]))
+"""
+    p = subprocess.run(["/usr/bin/python3", "-c", code, str(seed), str(want)], stdout=subprocess.PIPE, stderr=subprocess.PIPE, text=True, timeout=600)
+    if p.returncode != 0:
+        raise vlib.ToolError("boundary search failed: " + p.stderr[-500:])
+    return json.loads(p.stdout)
 
 
 def run(ctx):
@@ -24,6 +53,12 @@ def run(ctx):
     vlib.tlc_must_pass(res, cfg)
     ctx.add_tlc(res)
     ctx.exhaustive = False
+    # Algorithm 2.B inputs chosen ON its termination boundary (last byte of E = round - 32 at the first round >= 64 that
+    # could end the loop) and just beside it; they are found with the primitives themselves, the expected hash is still
+    # computed by Crypto.tla when the library's answer is validated
+    with open(of, "a") as f:
+        for c in boundary_2b(ctx.seed, 4 if thorough else 2):
+            f.write(json.dumps(c, separators=(",", ":")) + "\n")
     tp = os.path.join(ctx.work, "crypto.ndjson")
     vlib.vh(["c23", "run", "--in", of, "--out", tp], timeout=1500)
 
@@ -37,7 +72,7 @@ def run(ctx):
     by = {}
     for e in evs:
         by[e["alg"] + (str(e.get("R", "")))] = by.get(e["alg"] + str(e.get("R", "")), 0) + 1
-        ctx.count_case({k: e[k] for k in ("alg", "key", "data", "iv", "R", "n", "user", "owner", "P", "id", "obj", "encMeta") if k in e}, True)
+        ctx.count_case({k: e[k] for k in ("alg", "key", "data", "iv", "R", "n", "user", "owner", "P", "id", "obj", "encMeta", "pw", "salt", "u") if k in e}, True)
     ctx.extra["cases_by_algorithm"] = by
     for e in evs:
         if e["alg"] == "r234" and e["R"] == 3 and e["user"] and e["owner"]:
